@@ -66,8 +66,23 @@ func (c *fn) liftO(args []cx, f func(v []string) cx) cx {
 	return cx{s: r.s, opt: r.opt, binds: append(binds, r.binds...)}
 }
 
+// tyOf is types.Info.TypeOf, except for a parameter instantiated by
+// InstantiateAny, which has the type of its instance.
+func (c *fn) tyOf(e ast.Expr) types.Type {
+	if len(c.repl) > 0 {
+		if id, ok := unparen(e).(*ast.Ident); ok {
+			if o := c.objOf(id); o != nil {
+				if _, isRepl := c.replOf[o]; isRepl {
+					return o.Type()
+				}
+			}
+		}
+	}
+	return c.info.TypeOf(e)
+}
+
 func (c *fn) typeOf(e ast.Expr) types.Type {
-	t := c.info.TypeOf(e)
+	t := c.tyOf(e)
 	if t == nil {
 		c.fail(e, "no type information for expression")
 	}
@@ -248,7 +263,7 @@ func (c *fn) viewPath(e ast.Expr) (ast.Expr, string, bool) {
 		r, p, ok := c.viewPath(se)
 		return r, p + "()", ok
 	case *ast.SelectorExpr:
-		t := c.info.TypeOf(x.X)
+		t := c.tyOf(x.X)
 		if t == nil {
 			return nil, "", false
 		}
@@ -420,11 +435,31 @@ func (c *fn) exprAs(e ast.Expr, want types.Type) cx {
 	if wk == kNilable && ek == kIfaceFn && c.g.nilableIsFn(want, c.sub) {
 		return c.lift([]cx{c.expr(e)}, func(v []string) string { return "(PNew " + v[0] + ")" })
 	}
-	if wk == kNilable && ek != kNilable {
-		c.fail(e, "conversion of a concrete value to interface %s is not supported", types.TypeString(want, nil))
-	}
-	if wk == kOpaque && ek != kOpaque && c.g.isOpaqueIface(want, c.sub) {
-		c.fail(e, "conversion of a concrete value to interface %s is not supported", types.TypeString(want, nil))
+	if (wk == kNilable || wk == kOpaque) && c.g.isOpaqueIface(want, c.sub) && !c.g.isOpaqueIface(c.typeOf(e), c.sub) {
+		// a concrete value into an opaque interface: only when it is known not to be a nil pointer
+		et := c.typeOf(e)
+		var v cx
+		if _, isPtr := et.(*types.Pointer); isPtr {
+			if ek != kPtr && ek != kOpaque {
+				c.fail(e, "conversion of a %s to interface %s is not supported", types.TypeString(et, nil), types.TypeString(want, nil))
+			}
+			v = c.pointee(e)
+			if v.isOpt() {
+				c.fail(e, "a pointer that may be nil is converted to interface %s (a nil pointer inside a non-nil interface value is not modelled): declare it NonNil", types.TypeString(want, nil))
+			}
+		} else {
+			if ek != kStruct && ek != kString && ek != kInt && ek != kMap && ek != kSlice && ek != kOpaque {
+				c.fail(e, "conversion of a %s to interface %s is not supported", types.TypeString(et, nil), types.TypeString(want, nil))
+			}
+			v = c.expr(e)
+		}
+		up := c.g.ifaceOf(et, want, c.sub)
+		return c.lift([]cx{v}, func(x []string) string {
+			if wk == kNilable {
+				return "(PNew (" + up + " " + x[0] + "))"
+			}
+			return "(" + up + " " + x[0] + ")"
+		})
 	}
 	if wk == kIfaceFn && ek != kIfaceFn {
 		c.fail(e, "conversion of a concrete value to interface %s is not supported", types.TypeString(want, nil))
@@ -875,7 +910,7 @@ func (c *fn) assertion(x *ast.TypeAssertExpr) (string, string) {
 	if c.kindOf(x.X) != kAny {
 		c.fail(x, "type assertion on a value of type %s (only values of type any are supported)", types.TypeString(c.typeOf(x.X), nil))
 	}
-	t := resolve(c.info.TypeOf(x.Type), c.sub)
+	t := resolve(c.tyOf(x.Type), c.sub)
 	switch c.g.kind(t, c.sub) {
 	case kString:
 		return "any_str", dynTypeName(t)
